@@ -97,6 +97,22 @@ ROUND_TEXT = {
          "and argument-object handling, accuracy bands, route mismatches, exception contracts, shortcuts for degenerate inputs, "
          "objects holding values of mixed kinds, shared state between results and operands, augmented / reflected operators, "
          "position in a sequence, symmetry counterparts."),
+    11: ("This is an ELEVENTH round.  Assume that a strong randomised differential checker of this property already exists: it "
+         "draws every kind of argument the statement names (all classes, call forms, container forms, element types, options, "
+         "special angles, axis-aligned and nearly-unit axes, zero and tiny translations, objects holding 1..5 values of mixed "
+         "kinds, sequences of 2..40 values under prod), compares with an independent high-precision reference, and re-examines "
+         "operands and earlier results after every step.  Find what such a checker still cannot see.  Suggestions: (1) THRESHOLDS IN "
+         "SIZE OR COUNT -- code that changes algorithm for an object holding many values (N >= 8, 16, 64, 1000: chunking, "
+         "vectorised batch path, periodic renormalisation, a preallocated buffer of fixed size), for a long vector of s / theta / "
+         "points (N >= 100), or after the k-th call; (2) THRESHOLDS IN MAGNITUDE chosen so that both sides of the switch look right "
+         "in isolation but the switch point itself or a thin band next to it is wrong by more than the stated tolerance (series "
+         "below a small angle, a different formula above a large translation, a relative test that should be absolute or vice "
+         "versa); (3) EXACT COINCIDENCES -- two equal values in one sequence, the same value at both ends, a sorted or constant "
+         "vector of s, an angle that is an exact multiple of pi/2 in degrees (90, 180, 270, 360, -90), integer-valued floats, "
+         "operands that are exact inverses of each other; (4) COMBINATIONS OF TWO OPTIONS that are each handled correctly alone "
+         "(unit='deg' with order='xyz', flip with deg, check=False with a list form, shortest with a vector s, samebody with a "
+         "translation) ; (5) the SECOND of two results returned together (a tuple's second item, the lam of a (p, lam) pair, the "
+         "theta of (twist, theta), the axis of (angle, axis)) being wrong while the first is right."),
 }
 
 HUNT_TEXT = '''ALSO, BEFORE the mutants (about a third of your effort): hunt for inputs for which the UNMODIFIED tree already violates the property.  Read the statement and the quantifier literally and probe its corners systematically with small scripts: every class and call form it names, the extremes of the stated ranges, exact special values, multi-valued objects, every option value, both units, documented aliases, sequences of operations on one object.  Write what you find to {wt}/bughunt.md: for each violation a two-line reproduction, the value obtained and the value the property requires; if you find none, list briefly what you covered.  Do not fix anything.
